@@ -28,8 +28,12 @@ def capture_episode(cfg, augment=False, conn_dist=None, window=1):
         def sample(self, sample_shape=(), seed=None):
             shp = tuple(sample_shape) if isinstance(sample_shape, (tuple, list)) else (sample_shape,)
 
-            def cb(seed_):  # concrete value only matters for the capture run: small plausible delays
-                return np.full(shp, 0.0625, np.float32)
+            def cb(seed_, _name=f"oracle_sample_{self.tag}"):
+                from vlib import fixtures
+                q = fixtures.ORACLE_RETURNS.get(_name)
+                if q:  # replay: hand out the solver model's samples in call order
+                    return np.asarray(q.pop(0), np.float32).reshape(shp)
+                return np.full(shp, 0.0625, np.float32)  # capture run: small plausible delays
 
             cb.__name__ = f"oracle_sample_{self.tag}"
             return jax.pure_callback(cb, jax.ShapeDtypeStruct(shp, jnp.float32), seed, vmap_method="sequential")
@@ -173,13 +177,13 @@ def worker(cfg, tier):
     o = Ob("edges (in-order arrivals): ts_recv = sender end + sampled delay >= 0; seq_in = first receiver step starting at/after arrival (strictly after if skip); -1 beyond the horizon", v, s, cfg,
            key="gen-edges", what="a generated message is not assigned to the first receiver step starting at or after its arrival")
     if v == "sat":
-        o.replayed = _replay_public(cfg)
+        o.replayed = _replay_model(cfg, m, calls, episode, ex_graph, False, True) if not augment else _replay_public(cfg)
     obs.append(o)
     v, m, s = smt.check(pre, edge_goal(True), tmo)
     o = Ob("edges (any arrivals): seq_in = first receiver step at/after arrival that is not before the step of the previous message (FIFO channel)", v, s, cfg,
            key="gen-edges-fifo", what="generated seq_in is not the FIFO-constrained first eligible receiver step")
     if v == "sat":
-        o.replayed = _replay_public(cfg)
+        o.replayed = _replay_model(cfg, m, calls, episode, ex_graph, True, False) if not augment else _replay_public(cfg)
     obs.append(o)
     v, m, s = smt.check(pre, edge_goal(False), tmo)
     o = Ob("literal clause (any arrivals): every message is assigned to the first receiver step starting at/after its own arrival", v, s, cfg, key=KEY_K4,
@@ -195,6 +199,41 @@ def worker(cfg, tier):
     v, m, s = smt.satisfiable(pre + [va.seq.v[na - 1] == -1, va.seq.v[0] == 0, e.seq_in.v[0] >= 0], 60)
     obs.append(Ob("twin.horizon cut and consumed message reachable", v, s, cfg, kind="vacuity"))
     return obs
+
+
+def _replay_model(cfg, m, calls, episode, ex_graph, fifo_search, in_order_only):
+    """run the real `episode` closure eagerly with every oracle returning the model's samples; re-evaluate the edge law in numpy"""
+    import jax
+    import jax.numpy as jnp
+    from vlib import fixtures, jx
+
+    try:
+        fixtures.ORACLE_RETURNS.clear()
+        for c in calls.calls:
+            fixtures.ORACLE_RETURNS.setdefault(c["tag"], []).append(jx.model_array(m, c["outs"][0], np.float32))
+        g = episode(jax.random.PRNGKey(0), ex_graph, jnp.float32(cfg["ts_max"]))
+        fixtures.ORACLE_RETURNS.clear()
+        va = jax.tree_util.tree_map(lambda x: np.asarray(x, np.float64), g.vertices["a"])
+        vb = jax.tree_util.tree_map(lambda x: np.asarray(x, np.float64), g.vertices["b"])
+        e = jax.tree_util.tree_map(lambda x: np.asarray(x, np.float64), g.edges[("a", "b")])
+        skip, nb = cfg["skip"], len(vb.seq)
+        R = [e.ts_recv[j] if va.seq[j] != -1 else np.inf for j in range(len(va.seq))]
+        if in_order_only and any(R[j + 1] < R[j] for j in range(len(R) - 1) if va.seq[j + 1] != -1):
+            return False
+        prev, bad = 0, False
+        for j in range(len(va.seq)):
+            ks = [k for k in range(nb) if (vb.ts_start[k] > R[j] if skip else vb.ts_start[k] >= R[j]) and k >= (prev if fifo_search else 0)]
+            k = ks[0] if ks else nb
+            beyond = (va.ts_end[j] if va.seq[j] != -1 else np.inf) > cfg["ts_max"]
+            want = -1 if (k >= nb or beyond or k > vb.seq.max()) else k
+            if int(e.seq_in[j]) != want:
+                bad = True
+            if fifo_search:
+                prev = nb - 1 if k >= nb else k
+        return bad
+    except BaseException:  # noqa
+        fixtures.ORACLE_RETURNS.clear()
+        return None
 
 
 def _replay_public(cfg):
